@@ -14,6 +14,7 @@ facts about CPython / the adaptation registry / user functions.
 -/
 import TraitsVerif.Lemmas.ValSource2
 import TraitsVerif.Lemmas.ValAssign
+import TraitsVerif.Lemmas.ValCSrc6
 import TraitsVerif.Generated.ValidateTables
 namespace TraitsVerif.Props.C01
 open TraitsVerif TraitsVerif.Py.Value TraitsVerif.Model.Val TraitsVerif.Model.Val.Assign
@@ -214,5 +215,25 @@ example : run E0 [("y", TraitType.map [Val.ofStr "yes", Val.ofStr "no"] [Val.ofI
 /-- The comparisons of `in_float_range` the model transcribes (NaN-rejecting form). -/
 theorem C01_range_tests_modelled :
     Generated.floatRangeTests = ["!>low", "!>=low", "!<high", "!<=high"] := by decide
+
+
+/-! ## Soundness of the compiled validators as read from the source text -/
+
+open TraitsVerif.Model.CSrc in
+/-- C01_sound_partial about the interpreted SOURCE (see C03_fast_is_source): whenever the
+C function `validate_handlers[kind]`, run on its translated source text with the descriptor
+the trait type builds, returns a value, that value lies in the declared domain and is the
+documented conversion of the value assigned. -/
+theorem C01_sound_source (E : Env) (hE : EnvOK E) (hA : AdaptSome E) (inner : Desc → Val → Res)
+    (cdflt : Val) (fuel : Nat) (tt : TraitType) (hc : tt.soundClean = true) (d : Desc)
+    (hd : descOf E tt = some d) (hok : descOk E inner cdflt fuel d) (v w : Val)
+    (h : srcAlone E inner cdflt fuel d v = some (.ok w)) : inDomain E tt w = true ∧ Conv E tt v w := by
+  rw [srcAlone_eq E inner cdflt fuel hA d v hok] at h
+  have hf : fastAlone E d v = .ok w := by
+    cases hr : fastAlone E d v with
+    | ok x => rw [hr] at h; simpa [norm] using h
+    | traitError => rw [hr] at h; simp [norm] at h
+    | raised e => rw [hr] at h; cases e <;> simp [norm] at h
+  exact C01_sound_partial E hE tt hc v w (by simpa [validate, ctraitValidate, ctraitValidateWith, hd] using hf)
 
 end TraitsVerif.Props.C01
